@@ -1,3 +1,4 @@
+import Proofs.PipelineAmp
 import Proofs.Detect
 /-!
 # C07 — amplitude burst labels follow the dual-threshold rule
@@ -64,5 +65,17 @@ theorem C07_rejects_amp_threshes (fs lo hi : Rat) :
 /-! non-vacuity -/
 example : burstFraction [false, true, true, true, false, false] [(0, 3), (3, 5)] = [some (3/4), some (1/3)] := by decide +kernel
 example : ampSpec [some 1, some 1, some (1/2), some 1, some 1, some 1] 1 3 = [false, false, false, true, true, true] := by decide +kernel
+
+/-- END TO END: `compute_features(burst_method='amp')` as the composition `pipelineAmp` (cyclepoints, shape, the `min_n_cycles` reconciliation, the detector as a kernel,
+burst fractions, labels). Whatever the kernels answer: the sample columns are a well-formed segmentation; every `burst_fraction` is the fraction of detector-marked samples in
+`[last side, next side]` INCLUSIVE, the detector having been run with ONE minimum count - the burst options' if given, else the thresholds', else 3 - or with the given
+minimum duration; and the labels are `burst_fraction >= threshold` followed by the run rule with that same count. -/
+theorem C07_pipeline (c : Centre) (x : List Rat) (pad : Nat) (b : List Bool) (amp : List Rat) (bd : Int)
+    (bkMinN thMinN dur : Option Rat) (detMask : Option Rat × Option Rat → List Bool) (thr : Rat) (o : PipeOutAmp)
+    (hlen : b.length = x.length + 2 * pad) (h : pipelineAmp c x pad b amp bd bkMinN thMinN dur detMask thr = .ok o) :
+    wellFormed o.samples x.length bd ∧
+    o.fracs = o.samples.map (fun r => burstFractionSpec (detMask (detectorArgsSpec (bkMinN.getD (thMinN.getD 3)) dur)) r.lastTrough.toNat r.nextTrough.toNat) ∧
+    (0 ≤ thr → thr ≤ 1 → (o.fracs = [] ∨ 0 ≤ bkMinN.getD (thMinN.getD 3)) → o.labels = ampSpec o.fracs thr (bkMinN.getD (thMinN.getD 3))) :=
+  pipelineAmp_spec c x pad b amp bd bkMinN thMinN dur detMask thr o hlen h
 
 end Bycycle
